@@ -109,8 +109,30 @@ DEFAULT_CFG = {"dash": "AUTO", "gen": "FLAT", "nm": "DEFAULT"}            # "cr"
 NONE_CFG = {"dash": "AUTO", "gen": "FLAT", "nm": "DEFAULT", "cr": "NONE"}
 
 
+# classes used ONLY by the search that runs when the tie is broken by a translator (judged by the fresh-interpreter oracle alone;
+# they have no Coq rendering): a Union whose members overlap on some tokens (seeded change C08-07)
+SEARCH_CLASSES = {
+    "U1": [("my_x", "int", 1), ("level", "uni", 0)],
+    "U2": [("my_x", "int", 1), ("level", "uni", "auto")],
+}
+
+
+def search(seed, tie_broken, _cases):
+    """extra histories for the failing-input search: only when a regenerated fact no longer translates (the Coq side is then not
+    evaluated), since these classes exist on the Python side only"""
+    if not any(t.get("kind") == "translator" for t in tie_broken):
+        return []
+    out = []
+    for cls in SEARCH_CLASSES:
+        for argvs in ([["--level", "high"], ["--level", "2"]], [[], ["--level", "2"]], [["--level", "2"], ["--level", "x"], ["--level", "3"]],
+                      [["--level", "1.5"], ["--level=7"], []]):
+            ops = [["construct", 0, dict(DEFAULT_CFG), False], ["add", 0, cls, "a"]] + [["parse", 0, list(a)] for a in argvs]
+            out.append({"ops": ops, "search_only": True})
+    return out
+
+
 def classes_src():
-    out = ["import enum", "from dataclasses import dataclass, field", "from typing import List, Optional, Tuple",
+    out = ["import enum", "from dataclasses import dataclass, field", "from typing import List, Optional, Tuple, Union",
            "from simple_parsing import subgroups", ""]
     for en, e in ENUMS.items():
         out.append(f"{en} = enum.Enum({e['name']!r}, {e['members']!r}, module={ENUM_MODULE!r})")
@@ -123,10 +145,12 @@ def classes_src():
                     subs[cls] = (fname, fdef)
     for cls, (fname, fdef) in subs.items():
         out += ["@dataclass", f"class {cls}:", f"    {fname}: int = {fdef}", ""]
-    for cname, fields in CLASSES.items():
+    for cname, fields in list(CLASSES.items()) + list(SEARCH_CLASSES.items()):
         out += ["@dataclass", f"class {cname}:"]
         for name, kind, d in fields:
-            if kind == "int":
+            if kind == "uni":
+                out.append(f"    {name}: Union[int, str] = {d!r}")
+            elif kind == "int":
                 out.append(f"    {name}: int = {d}")
             elif kind == "str":
                 out.append(f"    {name}: str = {d!r}")
@@ -754,6 +778,9 @@ def classify(case, obs, k, why="diverges"):
     """Cause of the divergence at parse k, from what was OBSERVED (never from the model).  Every known label demands the
     evidence of its own mechanism - code path of the exception, which options are registered, which value came back and
     where that value stems from; a divergence with the same symptom but without that evidence is `unexplained`."""
+    if case.get("search_only") or any(op[0] == "add" and op[2] in SEARCH_CLASSES for op in case["ops"]):
+        # a search-only history (classes without Coq rendering): never a listed finding
+        return f"union-field-history:{why}:search-only"
     op, o, fr = case["ops"][k], obs["obs"][k], obs["fresh"][k]
     if fr is None:
         return "no-oracle"
@@ -999,6 +1026,10 @@ def coq_obs(op, o):
 
 
 def to_coq(case, obs):
+    if any(op[0] == "add" and op[2] in SEARCH_CLASSES for op in case["ops"]):
+        # a search-only history (replayed against a tree where the Coq side builds): its classes have no Coq rendering, the
+        # fresh-interpreter oracle of py_spec is its only judge; the Coq side gets the empty history, trivially in scope
+        return f"mkcase files_tbl {clist([])} {clist([])} {clist([])}"
     ops = []
     for op in case["ops"]:
         if op[0] == "construct":
